@@ -537,6 +537,31 @@ class Body:
         n = self.locals[l].get('name')
         return n if n else '_%d' % l
 
+    def capture_source(self, i):
+        """Term (in the enclosing body) of the i-th captured variable at the place this closure is constructed."""
+        if i is None:
+            return None
+        cache = self.__dict__.setdefault('_capsrc', {})
+        if i in cache:
+            return cache[i]
+        cache[i] = None
+        parent = self.prog.bodies.get(self.raw.get('parent'))
+        if parent is None or parent is self:
+            return None
+        sites = []
+        for blk in parent.blocks:
+            if blk['cleanup']:
+                continue
+            for st in blk['stmts']:
+                if st['k'] == 'assign' and st['rv']['k'] == 'agg' and st['rv'].get('ak') in ('closure', 'coroutine') and st['rv'].get('id') == self.id:
+                    sites.append(st['rv'])
+        if len(sites) == 1 and i < len(sites[0]['ops']):
+            try:
+                cache[i] = parent.operand_term(sites[0]['ops'][i])
+            except RecursionError:
+                cache[i] = None
+        return cache[i]
+
     def local_term(self, l, stack=()):
         key = l
         if key in self._term_cache:
@@ -674,8 +699,15 @@ class Body:
             if 'f' in pr:
                 fname = pr['f']
                 if fname.startswith('^'):
-                    # closure capture: refer to the captured variable by name
-                    base = ('var', fname[1:].replace('__', '.'))
+                    # closure capture: the captured variable by name, bound (as a `let`) to the value it has in the
+                    # enclosing body where the closure is built, so that expanded forms do not depend on its name
+                    nm = fname[1:].replace('__', '.')
+                    base = ('var', nm)
+                    src = self.capture_source(pr.get('i')) if '__' not in fname else None
+                    if src is not None and unlet(src) != base and unlet(src) != ('param', nm):
+                        base = ('let', nm, src)
+                    elif src is not None and unlet(src) == ('param', nm):
+                        base = ('param', nm)
                     continue
                 # projection of an aggregate literal -> the operand
                 ub = unlet(base)
